@@ -72,9 +72,10 @@ Proof.
     destruct D as [D|[D|D]]; [rewrite Hn in D by lia; discriminate | lia | exact D].
 Qed.
 
-Theorem writer_aligned root e :
+Theorem writer_aligned_good root e :
   lua_parse ts = Ok (root, e) -> consumed ts e = true -> writable ts root = true ->
-  exists cs, writer_chunks ts (view root) = Ok (cs, len) /\ codes_of cs = sig_codes ts 0 /\ tiling ts 0 cs len.
+  exists cs, writer_chunks ts (view root) = Ok (cs, len) /\ codes_of cs = sig_codes ts 0 /\ tiling ts 0 cs len /\
+             Forall (good_end ts) cs.
 Proof.
   intros Hp Hc Hw.
   destruct (parse_shape ts lua_binops lua_unops lua_binops_nontrivia lua_unops_nontrivia root e Hp) as (He & Hsp & Hsh & fs & Hroot).
@@ -83,20 +84,29 @@ Proof.
   pose proof (walk_aligned ts lua_binops lua_unops Hw lua_binops_ptok lua_unops_ptok (tsize root) cChunk root (le_n _) Hsh Hdom) as Hwok.
   destruct (consumed_nosig e Hc) as (_ & Hns).
   specialize (Hwok (2 * tdepth (view root) + 2)%nat 0 e 0 ltac:(lia) Hsp (okpos_0 ts) ltac:(intros; lia)).
-  destruct (Hwok (mkW 0 0 [])) as (st1 & cs1 & E1 & P1 & _ & O1 & C1 & _); [change (nearB ts 0 0 0); apply nearB_exact; lia|].
+  destruct (Hwok (mkW 0 0 [])) as (st1 & cs1 & E1 & P1 & _ & O1 & C1 & G1); [change (nearB ts 0 0 0); apply nearB_exact; lia|].
   cbn [w_out] in O1. rewrite app_nil_r in O1.
-  assert (Hwc : exists cs, writer_chunks ts (view root) = Ok (cs, len) /\ codes_of cs = lcodes ts (leaves root)).
+  assert (Hwc : exists cs, writer_chunks ts (view root) = Ok (cs, len) /\ codes_of cs = lcodes ts (leaves root) /\ Forall (good_end ts) cs).
   { subst root. rewrite view_node in *. unfold writer_chunks.
     assert (Hat : AstWriter.all_trivia (skipn (Z.to_nat e) ts) = true).
     { unfold consumed in Hc. apply andb_true_iff in Hc. destruct Hc as [_ Hc]. rewrite <- all_trivia_same. exact Hc. }
     rewrite Hat. cbn [negb]. unfold seq. rewrite E1. unfold spaces_to. cbn [w_pos]. rewrite P1.
     unfold ntok. rewrite trailing_run by (first [lia | exact Hns]).
     eexists. split; [reflexivity|]. unfold rev'. rewrite <- rev_alt. cbn [w_out rev]. rewrite O1, rev_involutive.
-    rewrite codes_of_app, C1. cbn [codes_of flat_map]. apply app_nil_r. }
-  destruct Hwc as (cs & Hcs & Hcodes). exists cs. split; [exact Hcs|]. split.
+    split; [rewrite codes_of_app, C1; cbn [codes_of flat_map]; apply app_nil_r|].
+    apply Forall_app. split; [eapply Forall_impl; [|exact G1]; intros c; apply good_good_end|].
+    constructor; [|constructor]. cbn [good_end]. right. right. apply trailing_run; [lia | exact Hns]. }
+  destruct Hwc as (cs & Hcs & Hcodes & Hgood). exists cs. split; [exact Hcs|]. split; [|split; [|exact Hgood]].
   - rewrite Hcodes, sig_codes_all. f_equal. rewrite (span_leaves ts _ _ _ Hsp).
     rewrite <- (sig_app ts 0 e len) by lia. rewrite (sig_nosig e len) by (intros; apply Hns; lia). symmetry. apply app_nil_r.
   - exact (writer_chunks_tiling ts _ _ _ Hcs).
+Qed.
+
+Theorem writer_aligned root e :
+  lua_parse ts = Ok (root, e) -> consumed ts e = true -> writable ts root = true ->
+  exists cs, writer_chunks ts (view root) = Ok (cs, len) /\ codes_of cs = sig_codes ts 0 /\ tiling ts 0 cs len.
+Proof.
+  intros Hp Hc Hw. destruct (writer_aligned_good root e Hp Hc Hw) as (cs & H1 & H2 & H3 & _). exists cs. repeat split; assumption.
 Qed.
 
 End T.
